@@ -215,6 +215,8 @@ def t_small_exh(ctx, p, mc):
                   ["pow", ["var", 0], 2], ["pow", ["var", 0], F.order - 1], ["pow", ["var", 0], F.order + 3]):
             cmp(t, [a])
         o_sgn0(ctx, dict(desc, a=list(a) if isinstance(a, tuple) else a))
+        if not pr.ref.is_fq:
+            o_sgn0(ctx, dict(desc, a=list(a), fq_coeffs=True))
         for k in range(-p - 1, 2 * p + 2):
             for op in int_ops:
                 cmp([op, ["var", 0], k], [a])
@@ -321,7 +323,8 @@ def t_trees(ctx, p, mc, real, kind, shard, n, big_budget):
             ex.append(dict(base, tree=["bad_add_i", ["var", 0], 1], vars=v, fq_coeffs=False))
             ex.append(dict(base, tree=["add", ["var", 0], ["var", 1]], vars=v, fq_coeffs=True))
     drive(ctx, f"trees{shard}", strat, lambda c: o_tree(ctx, c), n, ex, shrink=(d < 12))
-    sg = st.fixed_dictionaries({"a": el, "b": el}).map(lambda c: dict(base, **c))
+    sg = st.fixed_dictionaries({"a": el, "b": el, "fq_coeffs": st.booleans() if not is_fq else st.just(False)}).map(
+        lambda c: dict(base, **c))
     drive(ctx, f"sgn0{shard}", sg, lambda c: o_sgn0(ctx, c), max(6, n // 4), shrink=(d < 12))
 
 
